@@ -306,7 +306,7 @@ def _index_dims(df, frame, index, dimcols):
         # a neutral name - or none at all where pandas' own row numbers cannot be meant (text labels)
         years = df.index.dtype == np.int64 and len(df) > 0 and df.index.min() >= 1700 and df.index.max() <= 2300
         # ... or where the numbers are calendar years, which nobody's row numbers are (flodym documents this reading)
-        df.index.name = None if (index == "unnamed" and (df.index.dtype == object or years)) else "key"
+        df.index.name = None if (index == "unnamed" and (df.index.dtype == object or pd.api.types.is_string_dtype(df.index.dtype) or years)) else "key"
         df.attrs["dims_in_index"] = True
     elif index == "unnamed" and len(dimcols) > 1 and not any(c.get("ident") == "name" for c in frame.cols if c["role"] == "dim") \
             and not df[dimcols].isna().any().any():
